@@ -117,22 +117,39 @@ def limit_child():
 
 def shard_plan(cfg, tier):
     """suite -> number of shards; weights reflect measured per-suite cost."""
-    w = cfg.get("weights", {"ed25519": 2, "ristretto255": 2, "ed448": 5, "p256": 3, "secp256k1": 2, "secp256k1-tr": 2})
+    w = cfg.get("weights", {"ed25519": 4, "ristretto255": 4, "ed448": 6, "p256": 4, "secp256k1": 4, "secp256k1-tr": 4})
     suites = cfg.get("suites", SUITES)
     return {s: max(1, w.get(s, 1)) for s in suites}
+
+
+def mixed_profiles(cfg):
+    """Shards alternate between two builds of the harness+library: `verif` (release + debug assertions + overflow checks)
+    and plain `release` (what users ship). A side effect inside a debug assertion, or anything else that exists in one
+    profile only, shows up in half of the shards. Not for checks that loop over profiles themselves (C15, C16, C20) and not
+    for C14, which relies on the overflow checks to turn a wrap into an attributable panic."""
+    return not cfg.get("profiles") and cfg.get("mixed_profiles", True)
+
+
+def shard_profile(i):
+    return "release" if (i // 2) % 2 == 1 else "verif"
 
 
 def run_shards(prop, cfg, tier, seed, outdir, only=None, binpath=None, env=None):
     """Run all fv shards; returns (results, dead) where dead lists shards that died."""
     plan = shard_plan(cfg, tier)
     jobs = []
+    forced_bin = binpath is not None
+    mixed = mixed_profiles(cfg)
     binpath = binpath or cfg.get("bin", FV)
     os.makedirs(outdir, exist_ok=True)
     for s, n in plan.items():
         for i in range(n):
             if only and (only["suite"] != s or i != 0):
                 continue
-            cmd = [binpath, prop, "--suite", s, "--tier", tier, "--seed", str(seed), "--out", outdir]
+            prof = None
+            if mixed and not forced_bin:
+                prof = (only.get("profile") if only else None) or shard_profile(i)
+            cmd = [profile_bin(prof, "fv") if prof else binpath, prop, "--suite", s, "--tier", tier, "--seed", str(seed), "--out", outdir]
             if only:
                 cmd += ["--only-item", str(only["item"])]
                 if only.get("prelude"):
@@ -142,7 +159,7 @@ def run_shards(prop, cfg, tier, seed, outdir, only=None, binpath=None, env=None)
                 if i % 2 == 1:
                     # odd shards: another ciphersuite (with other encoding sizes) is used first in the same process
                     cmd += ["--prelude", PRELUDE[s]]
-            jobs.append((s, i, cmd))
+            jobs.append((s, i, cmd, prof))
     watchdog = int(os.environ.get("FV_WATCHDOG") or cfg.get("watchdog", {"quick": 900, "thorough": 7200})[tier])
     running, results, dead = [], [], []
     queue = list(jobs)
@@ -150,9 +167,12 @@ def run_shards(prop, cfg, tier, seed, outdir, only=None, binpath=None, env=None)
     maxpar = cfg.get("parallel", NCPU)
     while queue or running:
         while queue and len(running) < maxpar:
-            s, i, cmd = queue.pop(0)
+            s, i, cmd, prof = queue.pop(0)
             lf = open(os.path.join(outdir, f"{prop}.{s}.{i}.stderr"), "w")
-            p = subprocess.Popen(cmd, stdout=lf, stderr=subprocess.STDOUT, preexec_fn=limit_child, env=env)
+            penv = env
+            if prof:
+                penv = dict(env or os.environ, FV_PROFILE_NAME=prof)
+            p = subprocess.Popen(cmd, stdout=lf, stderr=subprocess.STDOUT, preexec_fn=limit_child, env=penv)
             running.append((s, i, cmd, p, lf, time.time()))
         time.sleep(0.05)
         for r in list(running):
@@ -256,7 +276,12 @@ def main():
             inconclusive(prop, f"oracle self-test failed: {why}")
 
     # 2. build from the current /repo working tree
-    ok, bsecs = cfg["build"](build) if "build" in cfg else build()
+    if "build" in cfg:
+        ok, bsecs = cfg["build"](build)
+    elif mixed_profiles(cfg):
+        ok, bsecs = build(profiles=("verif", "release"), bins=("fv",), parallel=True)
+    else:
+        ok, bsecs = build()
     if not ok:
         inconclusive(prop, "harness build failed against the current /repo tree")
 
@@ -270,7 +295,7 @@ def main():
     only = None
     if replay:
         tier, seed = replay.get("tier", tier), replay.get("seed", seed)
-        only = {"suite": replay["suite"], "item": replay["item"], "prelude": replay.get("prelude")}
+        only = {"suite": replay["suite"], "item": replay["item"], "prelude": replay.get("prelude"), "profile": replay.get("profile")}
     if cfg.get("profiles"):
         results, dead, secs = [], [], 0.0
         for prof in cfg["profiles"]:
